@@ -66,6 +66,7 @@ const (
 	rpcMutateRows = "(*server).MutateRows"
 	rpcCAM        = "(*server).CheckAndMutateRow"
 	rpcRMW        = "(*server).ReadModifyWriteRow"
+	rpcReadRows   = "(*server).ReadRows"
 )
 
 var bt = []string{"bigtable"}
@@ -122,6 +123,7 @@ func init() {
 	Properties["C03"] = &PropertySpec{
 		Modules: bt,
 		Rules: []Rule{
+			R64(),
 			Only(R59(), `^a/|^d/`, `^f/`),
 			Only(R54(), `^\(\*server\)\.ReadRows`, `^mergeRowRanges`, `^mergeSimpleRanges`, `^no-carried`),
 			Only(R53(), `^b/`),
